@@ -632,7 +632,7 @@ fn color3(r: &mut Rng) -> Color {
     Color::new(a, b, c, d).unwrap()
 }
 
-fn plain_num(r: &mut Rng) -> f64 {
+pub fn plain_num(r: &mut Rng) -> f64 {
     match r.below(6) {
         0 => 0.0,
         1 => r.range(-1000, 1000) as f64,
@@ -659,7 +659,7 @@ fn guide_rest(seed: &str) -> (Line, Option<Name>, Option<Color>) {
     (line, name, color)
 }
 
-fn simple_lib(r: &mut Rng) -> Dictionary {
+pub fn simple_lib(r: &mut Rng) -> Dictionary {
     // inherited guard (C02): no line breaks in glyph-lib strings or keys
     let mut d = Dictionary::new();
     for _ in 0..r.below(3) {
@@ -858,8 +858,10 @@ pub fn build(s: &Spec) -> Font {
     font
 }
 
-/// canonical description of a font value; `orig` supplies the seeds the un-modelled parts are compared with
-pub fn describe(font: &Font, orig: &Spec) -> Spec {
+/// canonical description of a font value.  The parts this model does not look into (other font-info
+/// fields, guideline geometry, glyphs) are named by the token `orig` has for the corresponding part of
+/// `reference` when they are equal to it, and by a content hash otherwise.
+pub fn describe_ref(font: &Font, orig: &Spec, reference: &Font) -> Spec {
     let mut s = Spec::default();
     s.opts = orig.opts;
     s.creator = font.meta.creator.clone();
@@ -867,11 +869,8 @@ pub fn describe(font: &Font, orig: &Spec) -> Spec {
     let (nums, upm, rest) = split_info(&font.font_info);
     s.nums = nums;
     s.upm = upm;
-    let orig_rest = match &orig.fi {
-        Some(seed) => info_rest(seed.parse().unwrap()),
-        None => FontInfo::default(),
-    };
-    s.fi = if rest == orig_rest {
+    let (_, _, ref_rest) = split_info(&reference.font_info);
+    s.fi = if rest == ref_rest && (orig.fi.is_some() || rest == FontInfo::default()) {
         orig.fi.clone()
     } else if rest == FontInfo::default() {
         None
@@ -882,16 +881,13 @@ pub fn describe(font: &Font, orig: &Spec) -> Spec {
         gs.iter()
             .enumerate()
             .map(|(i, g)| {
-                let tok = match orig.guides.as_ref().and_then(|o| o.get(i)) {
-                    Some((_, _, seed)) => {
-                        let (line, nm, col) = guide_rest(seed);
-                        if g.line == line && g.name == nm && g.color == col {
-                            seed.clone()
-                        } else {
-                            format!("X{:x}", fnv(format!("{:?}{:?}{:?}", g.line, g.name, g.color).as_bytes()))
-                        }
+                let fresh = || format!("X{:x}", fnv(format!("{:?}{:?}{:?}", g.line, g.name, g.color).as_bytes()));
+                let rg = reference.font_info.guidelines.as_ref().and_then(|o| o.get(i));
+                let tok = match (rg, orig.guides.as_ref().and_then(|o| o.get(i))) {
+                    (Some(rg), Some((_, _, tok))) if g.line == rg.line && g.name == rg.name && g.color == rg.color => {
+                        tok.clone()
                     }
-                    None => "Xextra".to_string(),
+                    _ => fresh(),
                 };
                 (g.identifier().map(|i| i.as_str().to_string()), g.lib().cloned(), tok)
             })
@@ -911,16 +907,14 @@ pub fn describe(font: &Font, orig: &Spec) -> Spec {
     s.features = font.features.clone();
     for l in font.layers.iter() {
         let ol = orig.layers.iter().find(|x| x.name == l.name().as_str());
+        let rl = reference.layers.get(l.name());
         let mut glyphs = Vec::new();
         for g in l.iter() {
-            let tok = match ol.and_then(|o| o.glyphs.iter().find(|(n, _)| n == g.name().as_str())) {
-                Some((n, tok)) if !tok.starts_with('X') => {
-                    if *g == mk_glyph(n, tok) {
-                        tok.clone()
-                    } else {
-                        format!("X{:x}", fnv(format!("{:?}", g).as_bytes()))
-                    }
-                }
+            let tok = match (
+                ol.and_then(|o| o.glyphs.iter().find(|(n, _)| n == g.name().as_str())),
+                rl.and_then(|r| r.get_glyph(g.name())),
+            ) {
+                (Some((_, tok)), Some(rg)) if g == rg => tok.clone(),
                 _ => format!("X{:x}", fnv(format!("{:?}", g).as_bytes())),
             };
             glyphs.push((g.name().to_string(), tok));
@@ -940,6 +934,11 @@ pub fn describe(font: &Font, orig: &Spec) -> Spec {
     s
 }
 
+/// description with content hashes for every un-modelled part
+pub fn describe_fresh(font: &Font) -> Spec {
+    describe_ref(font, &Spec::default(), &Font::new())
+}
+
 fn store<'a, E>(it: impl Iterator<Item = (&'a PathBuf, Result<std::sync::Arc<[u8]>, E>)>) -> Vec<(String, Vec<u8>)> {
     let mut v: Vec<(String, Vec<u8>)> = it
         .map(|(p, r)| (p.to_string_lossy().to_string(), r.map(|b| b.to_vec()).unwrap_or_else(|_| b"<error>".to_vec())))
@@ -948,7 +947,7 @@ fn store<'a, E>(it: impl Iterator<Item = (&'a PathBuf, Result<std::sync::Arc<[u8
     v
 }
 
-fn paths(font: &Font) -> String {
+pub fn paths(font: &Font) -> String {
     font.layers
         .iter()
         .map(|l| {
@@ -965,7 +964,7 @@ fn paths(font: &Font) -> String {
         .join("|")
 }
 
-fn variant(dbg: &str) -> String {
+pub fn variant(dbg: &str) -> String {
     dbg.chars().take_while(|c| c.is_alphanumeric()).collect()
 }
 
@@ -978,7 +977,7 @@ fn num_w(v: &Value) -> String {
 }
 
 /// what the writers put into the files, read with plist::Value (integer vs real is visible here)
-fn written(dir: &Path) -> Vec<String> {
+pub fn written(dir: &Path) -> Vec<String> {
     let mut out = Vec::new();
     let mut files: Vec<String> = std::fs::read_dir(dir)
         .map(|rd| rd.map(|e| e.unwrap().file_name().to_string_lossy().to_string()).collect())
@@ -1094,7 +1093,7 @@ fn close(a: f64, b: f64) -> bool {
 }
 
 /// the harness' own field-by-field comparison (tolerances of DESIGN section 8); the driver recomputes it exactly
-fn compare(a: &Spec, b: &Spec) -> String {
+pub fn compare(a: &Spec, b: &Spec) -> String {
     let mut d = Vec::new();
     if b.creator.as_deref() != Some(DEFAULT_CREATOR) {
         d.push("creator");
@@ -1177,7 +1176,7 @@ pub fn observe(toks: &[&str], scratch: &Path) -> String {
         Err(m) => return format!("build=panic:{}", hexs(&m)),
     };
     // the description of the font as built (sorted maps, as the getters show them)
-    let built = describe(&font, &spec);
+    let built = describe_ref(&font, &spec, &font);
     let dst = scratch.join("c01.ufo");
     rm_rf(&dst);
     let opts = options(&spec);
@@ -1198,7 +1197,7 @@ pub fn observe(toks: &[&str], scratch: &Path) -> String {
         Ok(Ok(f)) => {
             out.push("load=ok".into());
             out.extend(w);
-            let d = describe(&f, &spec);
+            let d = describe_ref(&f, &spec, &font);
             out.extend(font_tokens(&d));
             out.push(format!("post={}", paths(&f)));
             out.push(format!("cmp={}", compare(&built, &d)));
